@@ -822,13 +822,15 @@ void fp_inv_sim(fp_t *c, const fp_t *a, int n) {
 	fp_t u, *t = RLC_ALLOCA(fp_t, n);
 
 	fp_null(u);
+	for (i = 0; t != NULL && i < n; i++) {
+		fp_null(t[i]);
+	}
 
 	RLC_TRY {
 		if (t == NULL) {
 			RLC_THROW(ERR_NO_MEMORY);
 		}
 		for (i = 0; i < n; i++) {
-			fp_null(t[i]);
 			fp_new(t[i]);
 		}
 		fp_new(u);
@@ -853,7 +855,7 @@ void fp_inv_sim(fp_t *c, const fp_t *a, int n) {
 		RLC_THROW(ERR_CAUGHT);
 	}
 	RLC_FINALLY {
-		for (i = 0; i < n; i++) {
+		for (i = 0; t != NULL && i < n; i++) {
 			fp_free(t[i]);
 		}
 		fp_free(u);
